@@ -320,6 +320,23 @@ Definition instr_in_limits (L : limits) (i : instr) : bool :=
 
 Definition check_limits (L : limits) (C : code) : bool := forallb (instr_in_limits L) C.
 
+Definition with_larrays (L : limits) (n : Z) : limits :=
+  {| lm_globals := lm_globals L; lm_garrays := lm_garrays L; lm_larrays := n; lm_specials := lm_specials L;
+     lm_nums := lm_nums L; lm_strs := lm_strs L; lm_regexes := lm_regexes L; lm_natives := lm_natives L;
+     lm_funcs := lm_funcs L |}.
+
+(* every unit of the program against the program's tables ([lm_larrays], [lm_funcs] of [L] are ignored) *)
+Definition check_program_limits (L0 : limits) (p : cprogram) : bool :=
+  let L := {| lm_globals := lm_globals L0; lm_garrays := lm_garrays L0; lm_larrays := 0;
+              lm_specials := lm_specials L0; lm_nums := lm_nums L0; lm_strs := lm_strs L0;
+              lm_regexes := lm_regexes L0; lm_natives := lm_natives L0;
+              lm_funcs := map cf_narrays (c_funcs p) |} in
+  forallb (fun fn => (0 <=? cf_narrays fn) && check_limits (with_larrays L (cf_narrays fn)) (cf_body fn)) (c_funcs p) &&
+  check_limits L (c_begin p) &&
+  forallb (fun a => forallb (check_limits L) (fst a) &&
+                    match snd a with Some b => check_limits L b | None => true end) (c_actions p) &&
+  check_limits L (c_end p).
+
 (* ---- one-byte RS: the only MustCompile on run-time data (interp.go setSpecial V_RS) ---- *)
 
 (* regexp.MustCompile(regexp.QuoteMeta(rs)) for len(rs) <= 1: QuoteMeta escapes ASCII
